@@ -43,7 +43,7 @@ VALID_PROPS = [
     'globally: no a {x in [NAN to INF]}',
     'globally: no /ns/t {roll(m) < 1}',
     'globally: no a {x < 9999999999999999999999999999999999999999999999999999999999999999999999999999999999999999999999999999999999999999999999999999999999999999999999999999999999999999999999999999999999999999999999999999999999999999999999999999999999999999999999999999999999999999999999999999999999999999999999999999999999999999999999 and y > -1000000000000000000000000000000000000000000000000000000000000000000000000000000000000000000000000000000000000000000000000000000000000000000000000000000000000000000000000000000000000000000000000000000000000000000000000000000000000000000000000000000000000000000000000000000000000000000000000000000000000000000000000000000000000000000}',
-    '# title: "To Infinity and NaN" # description: "-Infinity" globally: no /sensor/Infinity as NaN {s = "NaN" or Infinity > 0 or @NaN.Infinity = "Infinity"}',
+    '# title: "To Infinity and NaN" # description: "-Infinity" globally: no /sensor/Infinity as NaN {s = "NaN" or Infinity > 0 or @NaN.NaN = "-Infinity"}',
     'after a as M: no b {roll(@M) > 0} within 1e400 s',
 ]
 INVALID_PROPS = [
@@ -204,6 +204,10 @@ def run(unit):
                     r.violation(kind, {'argv': argv}, detail, size=len(text))
         r.sample({'argv': ['-p', '-o', 'json', unit[2][0]]})
     elif what == 'fixed':
+        for text in VALID_PROPS:
+            if impl.try_parse('prop', text)[0] != 'ok':
+                # vacuity guard (read in the evidence): a corpus text meant to be valid that the library rejects
+                r.notes['corpus text meant to be valid is rejected by the library parser: ' + text[:50]] += 1
         for text in VALID_PROPS + [t for _c, t in INVALID_PROPS]:
             for want_json in (True, False):
                 for order in (0, 1):
